@@ -296,7 +296,14 @@ func (rt *Transfer) recvGenerator(idx int, f *File) error {
 		if rt.Opts.InfoGTE(rsyncopts.INFO_SKIP, 1) {
 			rt.Logger.Printf("skipping %s", local)
 		}
-		if err := rt.setPerms(f, fs.FileMode(f.Mode)); err != nil {
+		mode := fs.FileMode(f.Mode)
+		if !rt.Opts.PreservePerms {
+			// The file exists already and we are not preserving
+			// permissions: keep the existing permissions, like
+			// openLocalFile does for files that are transferred.
+			mode = (mode &^ os.ModePerm) | st.Mode().Perm()
+		}
+		if err := rt.setPerms(f, mode); err != nil {
 			return err
 		}
 		return nil
